@@ -269,6 +269,23 @@ class Ctx:
                 res[i + j * shards] = al[j] if j < len(al) else f'<no answer: rc={rc} {er.strip()[-200:]}>'
         return res
 
+    def engine_session(self, script, timeout=120):
+        """run the real UCI main loop on a scripted input: script = [(delay_in_polls, line), ...]; returns stdout text"""
+        import tempfile
+        os.makedirs(os.path.join(BUILD, 'tmp'), exist_ok=True)
+        fd, path = tempfile.mkstemp(dir=os.path.join(BUILD, 'tmp'), suffix='.session')
+        with os.fdopen(fd, 'w') as f:
+            for d, l in script: f.write(f'{d} {l}\n')
+        try:
+            p = subprocess.run([self.engine, '--verif', 'session', path], capture_output=True, text=True, timeout=timeout,
+                               env=dict(os.environ, JENCE_VERIF_TMP=os.path.join(BUILD, 'tmp')), stdin=subprocess.DEVNULL)
+            return p.stdout + (f'\n@EXIT {p.returncode}' if p.returncode != 0 else '')
+        except subprocess.TimeoutExpired as e:
+            return (e.stdout.decode() if isinstance(e.stdout, bytes) else (e.stdout or '')) + '\n@TIMEOUT'
+        finally:
+            try: os.remove(path)
+            except OSError: pass
+
     def engine_batch(self, lines, **kw):
         return self.run_lines(self.engine, ['--verif', 'batch'], lines, **kw)
 
